@@ -13,7 +13,8 @@ LEVEL = "exploration"
 BUDGET = {"quick": 60, "thorough": 900}
 MIN_BUDGET = {"quick": 25, "thorough": 120}
 RULE = ("2-3 committers on the CAS-S3 backend (separate processes, each 1-2 commits over {append, expire, "
-        "delete_snapshot, property set}); 1-3 timing faults per run placed at a chosen S3 request of a commit (lock "
+        "delete_snapshot, property set}; in a third of the runs a second thread on one committer's own handle runs "
+        "read-only maintenance - a collection with an enormous grace period, row counts - while it commits); 1-3 timing faults per run placed at a chosen S3 request of a commit (lock "
         "create / validation reads / pointer+ETag read / metadata PUT / fence read / pointer PUT / release): whole-"
         "process pause (heartbeat frozen too) or single-request stall (heartbeat keeps renewing) of 0.5-200 s, so "
         "leases (60 s) lapse, locks are taken over and conditional PUTs are delivered late; per-process clock skew up "
@@ -61,6 +62,14 @@ def gen(rng: random.Random, tier: str, idx: int) -> dict:
     if rng.random() < 0.15:
         faults.append({"kind": "error_after", "actor": f"a{rng.randrange(n)}", "op": "put", "cls": "HINT", "nth": 1,
                        "exc": "EndpointConnectionError"})
+    if rng.random() < 0.35:
+        # a second THREAD on committer a0's own handle doing read-only maintenance (collection with an enormous grace
+        # period, scans): it reads the pointer without taking the commit lock while a0 is mid-commit
+        k = rng.randint(1, 3)
+        actors.append({"name": "g0", "proc": "p0", "skew": actors[0]["skew"],
+                       "ops": [rng.choice([{"kind": "gc", "grace_ms": 10 ** 9}, {"kind": "gc", "grace_ms": 10 ** 9},
+                                           {"kind": "row_count"}, {"kind": "sleep", "dt": rng.choice([0.05, 1.0, 30.0])}])
+                               for _ in range(k)]})
     setup = [{"kind": "append", "tag": f"s{k}", "n": 1} for k in range(rng.randint(1, 3))]
     return {"backend": "s3", "setup": setup, "actors": actors, "faults": faults, "grant_all": rng.random() < 0.5,
             "policy": common.gen_policy(rng, 800)}
@@ -102,8 +111,15 @@ def execute(plan: dict, scratch: str, replay: Optional[dict] = None) -> dict:
         w.store.keep_history = True
         w.store.history = []
         chk = RefineChecker(w, commit_order=order0)
+        byproc = {}
         for a in plan["actors"]:
-            ph.actor(a["proc"], a["name"], a["ops"], skew=float(a.get("skew", 0)))
+            byproc.setdefault(a["proc"], []).append(a)
+        for proc, acts in byproc.items():
+            if len(acts) == 1:
+                ph.actor(proc, acts[0]["name"], acts[0]["ops"], skew=float(acts[0].get("skew", 0)))
+            else:
+                ph.sim.proc(proc, float(acts[0].get("skew", 0)))
+                ph.shared(proc, [(a["name"], a["ops"]) for a in acts])
         ph.run()
     finally:
         storage_backend.S3StorageBackend.create_lock = orig
